@@ -16,21 +16,28 @@ DEVIATIONS = {  # cfg suffix -> invariant TLC must report
 }
 INVS = ["C30_ReaderChecksum", "C30_ReaderSize", "C30_ServeSha", "C30_ServeSize"]
 TARGETS = {
-    "readers": ("./pkg/lfs/", "pkg/lfs/zz_verif_lfsverify_test.go", "lfs_readers_verif_test.go", "^TestVerifLfsReaders$"),
-    "download": ("./cmd/proxy/", "cmd/proxy/zz_verif_lfsverify_test.go", "lfs_download_verif_test.go", "^TestVerifLfsDownload$"),
+    "readers": ("./pkg/lfs/", {"pkg/lfs/zz_verif_lfsverify_test.go": "lfs_readers_verif_test.go"}, "^TestVerifLfsReaders$"),
+    "download": ("./cmd/proxy/", {"cmd/proxy/zz_verif_lfsverify_test.go": "lfs_download_verif_test.go",
+                                  "cmd/proxy/zz_verif_lfsdlconc_test.go": "lfs_dlconc_verif_test.go"}, "^(TestVerifLfsDownload|TestVerifLfsDlConc)$"),
 }
 
 
-def harness(ctx, which, scheds, tag):
-    pkg, target, src, test = TARGETS[which]
+def harness(ctx, which, scheds, tag, conc=None):
+    """Runs one go test per package; the cmd/proxy run also replays the concurrent-download schedules (conc)."""
+    pkg, files, test = TARGETS[which]
     sp = os.path.join(ctx.scratch, "sched-%s-%s.ndjson" % (which, tag))
     tp = os.path.join(ctx.scratch, "trace-%s-%s.ndjson" % (which, tag))
     gorun.write_ndjson(sp, scheds)
-    rc, out = gorun.go_test(ctx, ".", pkg, {target: os.path.join(DIR, "harness", src)}, test,
-                            env={"VERIF_SCHEDULES": sp, "VERIF_TRACE_OUT": tp}, timeout=900)
-    if rc != 0 or "replayed %d schedules" % len(scheds) not in out:
+    env = {"VERIF_SCHEDULES": sp, "VERIF_TRACE_OUT": tp}
+    if conc is not None:
+        csp, ctp = sp.replace("sched-", "csched-"), tp.replace("trace-", "ctrace-")
+        gorun.write_ndjson(csp, conc)
+        env.update({"VERIF_CONC_SCHEDULES": csp, "VERIF_CONC_TRACE_OUT": ctp})
+    rc, out = gorun.go_test(ctx, ".", pkg, {t: os.path.join(DIR, "harness", f) for t, f in files.items()}, test, env=env, timeout=900)
+    if rc != 0 or (scheds and "replayed %d schedules" % len(scheds) not in out) or (conc is not None and "replayed %d conc schedules" % len(conc) not in out):
         raise Broken("%s harness failed:\n%s" % (which, out[-3000:]))
-    return gorun.read_ndjson(tp)
+    rows = gorun.read_ndjson(tp) if scheds else []
+    return (rows, gorun.read_ndjson(ctp)) if conc is not None else rows
 
 
 def case_key(c):
@@ -50,15 +57,71 @@ def sig_of(inv, ev):
     return "%s@%s.%s" % (inv, c["entry"], cls)
 
 
-def run_all(ctx, scheds, tag):
-    rows = []
-    rd = [s for s in scheds if s["entry"] != "download"]
-    dl = [s for s in scheds if s["entry"] == "download"]
+def run_all(ctx, scheds, tag, conc=None):
+    rows, crows = [], []
+    rd = [s for s in scheds if s.get("entry") not in ("download", None)]
+    dl = [s for s in scheds if s.get("entry") == "download"]
     if rd:
         rows += harness(ctx, "readers", rd, tag)
-    if dl:
-        rows += harness(ctx, "download", dl, tag)
-    return rows
+    if dl or conc is not None:
+        r = harness(ctx, "download", dl, tag, conc=conc)
+        if conc is not None:
+            r, crows = r
+        rows += r
+    return (rows, crows) if conc is not None else rows
+
+
+def maximal(hs):
+    pref = set()
+    for h in hs:
+        for i in range(len(h)):
+            pref.add(json.dumps(h[:i], sort_keys=True))
+    out = {json.dumps(h, sort_keys=True): h for h in hs if h and json.dumps(h, sort_keys=True) not in pref}
+    return [out[k] for k in sorted(out)]
+
+
+def conc_schedules(ctx, d):
+    """LfsDlConc.tla: two concurrent downloads of one envelope; one schedule per reachable model state + the deviation counterexample."""
+    mc = T.model_check(ctx, d, "MC_LfsDlConc.tla", "MC_LfsDlConc.cfg", timeout=600, workers=1)
+    hs = mc.prints.get("SCHED", [])
+    if len(hs) != mc.distinct:
+        raise Broken("LfsDlConc state cover incomplete: %d histories for %d states" % (len(hs), mc.distinct))
+    h, r = T.counterexample_hist(ctx, d, "MC_LfsDlConc.tla", "Dev_LfsDlConc_SharedBuffer.cfg", timeout=300, workers=1)
+    if h is None or "C30_ServeSha" not in r.violated:
+        raise Broken("deviation SharedBuffer no longer violates C30_ServeSha in LfsDlConc (vacuous deviation)")
+    steps = [h] + [x for x in maximal(hs) if x != h]
+    units = [20000] if ctx.quick() else [20000, 50000]
+    seeds = [ctx.seed] if ctx.quick() else [ctx.seed, ctx.seed + 7919]
+    return mc, [{"unit": u, "seed": sd, "steps": st} for u in units for sd in seeds for st in steps], h
+
+
+def conc_validate(ctx, prop, cscheds, crows):
+    runs, cur = [], None
+    for r in crows:
+        if r["ev"] == "Reset":
+            cur = []
+            runs.append(cur)
+        cur.append(r)
+    if len(runs) != len(cscheds) or sum(len(r) - 1 for r in runs) != sum(len(s["steps"]) for s in cscheds):
+        raise Broken("concurrent-download harness recorded %d runs for %d schedules" % (len(runs), len(cscheds)))
+    overl = sum(1 for r in runs if any(e["ev"] == "Finish" and e["status"] == 200 for e in r) and sum(1 for e in r if e["ev"] == "Start") == 2)
+    if overl == 0 or not any(e["ev"] == "Start" and e["status"] == 502 for e in crows):
+        raise Broken("vacuous run: no schedule with two downloads and a streamed 200, or no refused download")
+    _, viol, _ = layers.observe(ctx, DIR, "Obs_LfsDlConc.tla", "Obs_LfsDlConc.cfg", crows, name="cobs", timeout=600)
+    violations, seen = [], set()
+    for line, inv in sorted(viol):
+        sig = "%s@download.concurrent_same_envelope" % inv
+        if sig in seen:
+            continue
+        seen.add(sig)
+        idx = sum(1 for r in crows[:line] if r["ev"] == "Reset") - 1
+        ev = crows[line - 1]
+        path = save_replay(prop, "conc-%s.json" % re.sub(r"\W", "_", sig), {"conc_schedule": cscheds[idx], "trace": runs[idx], "line": ev})
+        violations.append(Violation(prop, sig, "%s false on the real download endpoint: request %s answered %d and the client received %d bytes with sha256 %s.. (envelope: %d bytes, %s..); chunks sent %s [schedule %s, replay %s]" % (
+            inv, ev.get("r"), ev["status"], ev["out"]["bsize"], ev["out"]["bhash"]["sha256"][:12], ev["p"]["supSize"], ev["p"]["sha"][:12], ev.get("sent"), json.dumps(cscheds[idx]["steps"]), path),
+            {"conc_schedule": cscheds[idx], "event": ev}))
+    reached, total, _ = layers.conform(ctx, DIR, "Trace_LfsDlConc.tla", "Trace_LfsDlConc.cfg", crows, name="cconf", timeout=600)
+    return violations, {"reached": reached, "total": total, "first_rejection": crows[reached] if reached != total and reached < len(crows) else None}, len(runs), overl
 
 
 def check(ctx, prop):
@@ -89,7 +152,9 @@ def check(ctx, prop):
             for sd in seeds:
                 scheds.append({"entry": entry, "unit": u, "seed": sd, "cases": cs})
     ctx.log("%d schedules (entry x unit x seed), %d case evaluations" % (len(scheds), sum(len(s["cases"]) for s in scheds)))
-    rows = run_all(ctx, scheds, "main")
+    cmc, cscheds, cdev = conc_schedules(ctx, d)
+    ctx.log("concurrent downloads: %d model states, %d schedules" % (cmc.distinct, len(cscheds)))
+    rows, crows = run_all(ctx, scheds, "main", conc=cscheds)
     nreset = sum(1 for r in rows if r["ev"] == "Reset")
     ncase = sum(1 for r in rows if r["ev"] == "Case")
     if nreset != len(scheds) or ncase != sum(len(s["cases"]) for s in scheds):
@@ -114,14 +179,16 @@ def check(ctx, prop):
         o, p = ev["out"], ev["p"]
         violations.append(Violation(prop, sig, "%s false on the real %s: case %s -> returned=%s blob=%s size=%d (supplied size %d, limit %d) [replay %s]" % (
             inv, ev["c"]["entry"], json.dumps(ev["c"], sort_keys=True), o["ret"], o["blob"], o["bsize"], p["supSize"], p["max"], path), {"schedule": sched, "event": ev}))
+    cviol, cconf, cruns, coverl = conc_validate(ctx, prop, cscheds, crows)
+    violations += cviol
     reached, total, _ = layers.conform(ctx, DIR, "Trace_LfsVerify.tla", "Trace_LfsVerify.cfg", rows, timeout=1200)
-    drift = reached != total
+    drift = reached != total or cconf["reached"] != cconf["total"]
     conf = {"reached": reached, "total": total, "first_rejection": rows[reached] if drift and reached < len(rows) else None}
     st = self_test(ctx, rows)
     level = "model_checking"
     if drift and not violations:
         level = "exploration"
-        ctx.log("DRIFT: conformance layer rejected line %d although C30 held: %s" % (reached + 1, json.dumps(conf["first_rejection"])[:600]))
+        ctx.log("DRIFT: conformance layer rejected a line although C30 held: %s" % json.dumps(conf["first_rejection"] or cconf["first_rejection"])[:600])
     nontrivial = len({case_key(r["c"]) for r in rows if r["ev"] == "Case" and (r["c"]["stored"] != "orig" or r["c"]["sha"] == "junk" or r["c"]["ck"] == "junk")})
     sample_rows = [r for r in rows if r["ev"] == "Case" and r["out"]["ret"]][:2] + [r for r in rows if r["ev"] == "Case" and not r["out"]["ret"]][:2]
     cov = {
@@ -134,6 +201,9 @@ def check(ctx, prop):
         "deviation_schedules": {k: v for k, v in sorted(dev_cases.items())},
         "conformance": ("drift" if drift else "accepted"), "conformance_detail": conf,
         "binding_self_test": st, "unit_sizes_bytes": units,
+        "concurrent_downloads": {"model": "LfsDlConc.tla", "states": cmc.distinct, "transitions": cmc.generated, "schedules": len(cscheds),
+                                 "traces_validated_against_impl": cruns, "schedules_with_overlapping_streamed_200": coverl,
+                                 "deviation_schedule": cdev, "conformance_detail": cconf},
         "samples": [scheds[0]["cases"][:2], sample_rows],
     }
     if not quick:
@@ -142,6 +212,7 @@ def check(ctx, prop):
         "digest equality is evaluated on concrete hex digests computed by the harness with Go's standard library over the bytes actually returned; the abstract model identifies a digest with the content it was computed from (no collisions among the six contents: asserted by the harness)",
         "the storage side is a fake s3API returning the scripted object in one piece; read errors mid-stream are not in the domain",
         "download endpoint: stream mode only; 'bytes sent' = HTTP 200, or the object's bytes appearing in any other response",
+        "concurrency: two requests for one envelope, interleaved at the granularity fetch+verify+first chunk / remaining chunks (slow-client gate on the first body write), object replaced between steps; other interleavings inside the handler are not scheduled",
     ])
 
 
@@ -170,6 +241,16 @@ def self_test(ctx, rows):
 
 def replay(ctx, prop, path):
     obj = json.load(open(path))
+    csched = obj.get("conc_schedule") or obj.get("detail", {}).get("conc_schedule")
+    if csched:
+        _, crows = run_all(ctx, [], "replay", conc=[csched])
+        _, viol, _ = layers.observe(ctx, DIR, "Obs_LfsDlConc.tla", "Obs_LfsDlConc.cfg", crows, name="cobs")
+        for r in crows:
+            print(json.dumps(r, sort_keys=True)[:600])
+        for line, inv in viol:
+            print("VIOLATION property=%s replay=%s" % (prop, path))
+            print("  %s false at line %d" % (inv, line))
+        return 1 if viol else 0
     sched = obj.get("schedule") or obj.get("detail", {}).get("schedule")
     rows = run_all(ctx, [sched], "replay")
     _, viol, _ = layers.observe(ctx, DIR, "Obs_LfsVerify.tla", "Obs_LfsVerify.cfg", rows)
